@@ -40,13 +40,19 @@ inline std::string blabel(int i) { return "b" + std::to_string(i); }
 inline int bindex(const std::string &l) { return atoi(l.c_str() + 1); }
 
 inline std::string stmt_str(const Stmt &s) {
-  if (!s.name.empty()) return s.name;
+  if (!s.name.empty() && s.kind != S_CALL) return s.name;
   switch (s.kind) {
   case S_HAVOC: return std::string("havoc(") + var_name(s.v0) + ")";
   case S_ASSERT: return "assert#" + std::to_string(s.a) + "(" + s.c.str() + ")";
   case S_BOOL_ASSERT: return "assert#" + std::to_string(s.a) + "(" + var_name(s.v0) + ")";
   case S_UNREACH: return "unreachable";
-  case S_CALL: return "call";
+  case S_CALL: {
+    std::string r = "(";
+    for (size_t i = 0; i < s.vars.size(); i++) r += std::string(i ? "," : "") + var_name(s.vars[i]);
+    r += "):=" + s.name + "(";
+    for (size_t i = 0; i < s.e.terms.size(); i++) r += std::string(i ? "," : "") + var_name(s.e.terms[i].second);
+    return r + ")";
+  }
   case O_ASSIGN: return std::string(var_name(s.v0)) + ":=" + s.e.str();
   case O_ASSUME: return "assume(" + s.c.str() + ")";
   case O_ARITH_VV: return std::string(var_name(s.v0)) + ":=" + var_name(s.v1) + " arith" + std::to_string(s.a) + " " + var_name(s.v2);
@@ -133,6 +139,13 @@ inline void add_stmt(z_basic_block_t &bb, const Stmt &s) {
   case S_ASSERT: bb.assertion(to_lcst(s.c), crab::cfg::debug_info((int64_t)s.a)); break;
   case S_BOOL_ASSERT: bb.bool_assert(V(s.v0), crab::cfg::debug_info((int64_t)s.a)); break;
   case S_UNREACH: bb.unreachable(); break;
+  case S_CALL: { // name = callee, vars = lhs, e.terms = actual arguments (as in the decompiler)
+    std::vector<z_var> lhs, args;
+    for (int v : s.vars) lhs.push_back(V(v));
+    for (auto &t : s.e.terms) args.push_back(V(t.second));
+    bb.callsite(s.name, lhs, args);
+    break;
+  }
   case O_BOOL_ASSIGN_CST: bb.bool_assign(V(s.v0), to_lcst(s.c)); break;
   case O_BOOL_ASSIGN_VAR:
     if (s.a) bb.bool_not_assign(V(s.v0), V(s.v1)); else bb.bool_assign(V(s.v0), V(s.v1));
